@@ -45,6 +45,9 @@ structure EFSOk (cfg : Cfg) (s s' : State) : Prop where
       = keepOf cfg.order (s.slots.getD j Slot.empty)
   same : s'.pending = s.pending ∧ s'.c.numGenerated = s.c.numGenerated ∧
     s'.c.numActive = s.c.numActive
+  /-- a slot whose track survived the step is not touched -/
+  aliveSame : ∀ j, j < cfg.slots → (s.slots.getD j Slot.empty).status = .alive →
+    s'.slots.getD j Slot.empty = s.slots.getD j Slot.empty
 
 structure EFSErr (cfg : Cfg) (s s' : State) : Prop where
   lens : Lens cfg s'
@@ -91,7 +94,8 @@ theorem efsOk_of_loop {cfg : Cfg} {s : State} (hL : Lens cfg s) (hC : Core s s.c
   obtain ⟨f1, f2, f3, f4, f5⟩ := hfin.frame
   have hact : ∀ j, j < cfg.slots → (s'.slots.getD j Slot.empty).active
       = keepOf cfg.order (s.slots.getD j Slot.empty) := fun j hj => (hfin.done j hj).1
-  refine ⟨hfin.lens, ?_, ?_, ?_, ?_, ?_, ?_, fun j hj => (hfin.done j hj).2, hact, ?_⟩
+  refine ⟨hfin.lens, ?_, ?_, ?_, ?_, ?_, ?_, fun j hj => (hfin.done j hj).2.1, hact, ?_,
+    fun j hj => (hfin.done j hj).2.2⟩
   · rw [f3, hc2]; have := hfin.core; exact this
   · rw [f3, hc2]
   · rw [f3, hc2]
